@@ -165,6 +165,9 @@ class Unit:
         self.trusted = trusted
         self.preserves = list(preserves)  # footprints the unit provably never writes (POST obligation)
         self.region = region  # "body:<loopkey>" | "stmt:<loopkey>": the unit is a statement region
+        import sys as _sys
+
+        self.module = _sys._getframe(1).f_globals.get("__name__", "")
         REGISTRY[name] = self
         if region is None:
             BY_TARGET[target] = self
